@@ -45,3 +45,99 @@ Theorem layout_keeps_words :
     flat_map (lwords word) (layout word width space maxW cursor numLines ts) = words_of_toks word ts.
 Proof. exact FmtRefine.layout_keeps_words. Qed.
 Print Assumptions layout_keeps_words.
+
+(* ---------- from the characters of the text to the output (FormatWords.v) ---------- *)
+(* words_from_total: the word splitter always succeeds with its fuel, so the hypothesis `words_from .. = Some ws` of the theorems
+   above disappears (format_text_refines_total, format_text_lines_fit_total).  get_next_word_spec: what one call of getNextWord
+   does - leading spaces skipped, the word runs to the next space / break code at brace level 0, spaces inside {..} belong to the word.
+   words_keep_characters / words_are_the_nonspace_characters: the words, concatenated, are the text with its level-0 spaces removed -
+   exactly, for texts without two adjacent backslashes (a backslash directly followed by a backslash at the start of a word is
+   dropped by the model and by the Go code: boundary B7).  layout_keeps_tokens: the lines are a layout of exactly the token
+   sequence (explicit breaks kept in place, \N resolved by the line discipline).  format_text_same_characters: the output with the
+   inserted break codes and joining spaces removed has the character sequence of the input with its spaces removed. *)
+From Pory Require Import FormatWords.
+Theorem get_next_word_spec :
+  forall l : list N,
+  l = repeat 32%N (length l) /\ get_next_word l = (length l, []) \/
+  (exists (a b : nat) (w rest : list N),
+     l = repeat 32%N a ++ repeat 92%N b ++ w ++ rest /\
+     get_next_word l = ((a + b + length w)%nat, w) /\ skipn (a + b + length w) l = rest /\ word_shape b w rest).
+Proof. exact FormatWords.get_next_word_spec. Qed.
+Print Assumptions get_next_word_spec.
+
+Theorem words_from_total :
+  forall txt : text, words_from txt (S (length txt)) (Datatypes.fst (get_next_word txt)) (snd (get_next_word txt)) = Some (words_of txt).
+Proof. exact FormatWords.words_from_total. Qed.
+Print Assumptions words_from_total.
+
+Theorem words_of_good :
+  forall txt : text, Forall good_word (words_of txt).
+Proof. exact FormatWords.words_of_good. Qed.
+Print Assumptions words_of_good.
+
+Theorem words_keep_characters :
+  forall txt : text, exists txt' : text, dropbs txt txt' /\ concat (words_of txt) = despace 0 txt'.
+Proof. exact FormatWords.words_keep_characters. Qed.
+Print Assumptions words_keep_characters.
+
+Theorem words_are_the_nonspace_characters :
+  forall txt : text, has_bsbs txt = false -> concat (words_of txt) = despace 0 txt.
+Proof. exact FormatWords.words_are_the_nonspace_characters. Qed.
+Print Assumptions words_are_the_nonspace_characters.
+
+Theorem layout_keeps_tokens :
+  forall (word : Type) (width : word -> Z) (space maxW cursor numLines : Z) (ts : list (tok word)),
+  lines_src word numLines 0 (layout word width space maxW cursor numLines ts) ts.
+Proof. exact FormatWords.layout_keeps_tokens. Qed.
+Print Assumptions layout_keeps_tokens.
+
+Theorem format_text_refines_total :
+  forall (fc : fontcfg) (txt0 : list N) (maxW cursor : Z) (fontID : text) (numLines : Z),
+  let txt := map (fun c : N => if (c =? 10)%N then 32%N else c) txt0 in
+  let spaceW := rune_width fc 32 fontID in
+  format_text fc txt0 maxW cursor fontID numLines = None \/
+  format_text fc txt0 maxW cursor fontID numLines =
+  Some (print_lines (layout text (fun w : text => word_width fc w fontID) spaceW maxW cursor numLines (map classify (words_of txt)))).
+Proof. exact FormatWords.format_text_refines_total. Qed.
+Print Assumptions format_text_refines_total.
+
+Theorem format_text_lines_fit_total :
+  forall (fc : fontcfg) (txt0 : list N) (maxW cursor : Z) (fontID : text) (numLines : Z) (out : text),
+  let txt := map (fun c : N => if (c =? 10)%N then 32%N else c) txt0 in
+  let spaceW := rune_width fc 32 fontID in
+  let width := fun w : text => word_width fc w fontID in
+  format_text fc txt0 maxW cursor fontID numLines = Some out ->
+  exists ls : list (line text),
+    out = print_lines ls /\
+    Forall2 (fun (i : Z) (l : line text) => line_ok text width spaceW maxW cursor numLines i l /\ disc_ok text numLines i l) 
+      (indices text 0 ls) ls.
+Proof. exact FormatWords.format_text_lines_fit_total. Qed.
+Print Assumptions format_text_lines_fit_total.
+
+Theorem format_text_from_source :
+  forall (fc : fontcfg) (txt0 : list N) (maxW cursor : Z) (fontID : text) (numLines : Z) (out : text),
+  let txt := map (fun c : N => if (c =? 10)%N then 32%N else c) txt0 in
+  let spaceW := rune_width fc 32 fontID in
+  let width := fun w : text => word_width fc w fontID in
+  format_text fc txt0 maxW cursor fontID numLines = Some out ->
+  exists ls : list (line text),
+    out = print_lines ls /\
+    Forall2 (fun (i : Z) (l : line text) => line_ok text width spaceW maxW cursor numLines i l /\ disc_ok text numLines i l) 
+      (indices text 0 ls) ls /\
+    lines_src text numLines 0 ls (map classify (words_of txt)) /\
+    (exists ws' : list text, Forall2 resolved (words_of txt) ws' /\ flat_map line_chars ls = concat ws') /\
+    (exists txt' : text, dropbs txt txt' /\ concat (words_of txt) = despace 0 txt') /\
+    (has_bsbs txt = false -> concat (words_of txt) = despace 0 txt).
+Proof. exact FormatWords.format_text_from_source. Qed.
+Print Assumptions format_text_from_source.
+
+Theorem format_text_same_characters :
+  forall (fc : fontcfg) (txt0 : list N) (maxW cursor : Z) (fontID : text) (numLines : Z) (out : text),
+  let txt := map (fun c : N => if (c =? 10)%N then 32%N else c) txt0 in
+  format_text fc txt0 maxW cursor fontID numLines = Some out ->
+  has_bsbs txt = false ->
+  Forall (fun w : text => w <> bs 78) (words_of txt) ->
+  exists ls : list (line text), out = print_lines ls /\ flat_map line_chars ls = despace 0 txt.
+Proof. exact FormatWords.format_text_same_characters. Qed.
+Print Assumptions format_text_same_characters.
+
